@@ -70,7 +70,7 @@ for patch in selftest/mutants/*.patch selftest/benign/*.patch seeded/*/patch.dif
     case "$patch" in
         seeded/*) name="seeded-$(basename "$(dirname "$patch")")"; want=$(python3 -c "import json,sys;print(' '.join(json.load(open('$(dirname "$patch")/meta.json'))['breaks']))" 2>/dev/null) ;;
         selftest/benign/*) name="benign-$(basename "$patch" .patch)"; want="" ;;
-        *) name=$(basename "$patch" .patch); want=$(grep '^# breaks:' "$patch" | sed 's/# breaks: //') ;;
+        *) name=$(basename "$patch" .patch); want=$(grep '^# breaks:' "$patch" | sed 's/# breaks: *//') ;;
     esac
     [ -f "$WORK/res-$name" ] || continue
     res=$(cat "$WORK/res-$name")
